@@ -326,7 +326,7 @@ func opDeleteField(e *Editor, ws *Workspace) (*Edit, bool) {
 	return &Edit{
 		Op: "delete-field", Desc: fmt.Sprintf("delete field %s=%d of %s (reserve number=%v name=%v)", s.fld.Name, s.fld.Number, s.msg.Full, resNum, resName),
 		Rules: deletedFieldRules(m, s.fld, resNum, resName), File: s.file.Path, ElemID: m.ID,
-		Mention: []string{numStr(s.fld.Number), `"` + s.fld.Name + `"`},
+		Mention:        []string{numStr(s.fld.Number), `"` + s.fld.Name + `"`},
 		PerRuleMention: map[string][]string{"MESSAGE_SAME_REQUIRED_FIELDS": {numStr(s.fld.Number), s.fld.Name, m.Name}},
 	}, true
 }
@@ -706,7 +706,7 @@ func opScalarToMessageOrEnum(e *Editor, ws *Workspace) (*Edit, bool) {
 	s.fld.Options = DelOption(s.fld.Options, "jstype")
 	return &Edit{Op: "scalar-to-" + kind, Desc: fmt.Sprintf("%s.%s: %s -> %s", s.msg.Full, s.fld.Name, from, to),
 		Rules: []string{"FIELD_SAME_TYPE", "FIELD_WIRE_JSON_COMPATIBLE_TYPE", "FIELD_WIRE_COMPATIBLE_TYPE"},
-		File: s.file.Path, ElemID: s.fld.ID, Mention: []string{numStr(s.fld.Number), `"` + s.fld.Name + `"`}}, true
+		File:  s.file.Path, ElemID: s.fld.ID, Mention: []string{numStr(s.fld.Number), `"` + s.fld.Name + `"`}}, true
 }
 
 func opRetargetMessageField(e *Editor, ws *Workspace) (*Edit, bool) {
@@ -729,7 +729,7 @@ func opRetargetMessageField(e *Editor, ws *Workspace) (*Edit, bool) {
 	s.fld.Type = to
 	return &Edit{Op: "retarget-message-field", Desc: fmt.Sprintf("%s.%s: %s -> %s", s.msg.Full, s.fld.Name, from, to),
 		Rules: []string{"FIELD_SAME_TYPE", "FIELD_WIRE_JSON_COMPATIBLE_TYPE", "FIELD_WIRE_COMPATIBLE_TYPE"},
-		File: s.file.Path, ElemID: s.fld.ID, Mention: []string{numStr(s.fld.Number), `"` + s.fld.Name + `"`}}, true
+		File:  s.file.Path, ElemID: s.fld.ID, Mention: []string{numStr(s.fld.Number), `"` + s.fld.Name + `"`}}, true
 }
 
 func opOptionalToRepeated(e *Editor, ws *Workspace) (*Edit, bool) {
@@ -744,7 +744,7 @@ func opOptionalToRepeated(e *Editor, ws *Workspace) (*Edit, bool) {
 	s.fld.Label = LabelRepeated
 	return &Edit{Op: "optional-to-repeated", Desc: fmt.Sprintf("%s.%s: %q -> repeated", s.msg.Full, s.fld.Name, from),
 		Rules: []string{"FIELD_SAME_CARDINALITY", "FIELD_WIRE_JSON_COMPATIBLE_CARDINALITY", "FIELD_WIRE_COMPATIBLE_CARDINALITY"},
-		File: s.file.Path, ElemID: s.fld.ID, Mention: []string{numStr(s.fld.Number), `"` + s.fld.Name + `"`}}, true
+		File:  s.file.Path, ElemID: s.fld.ID, Mention: []string{numStr(s.fld.Number), `"` + s.fld.Name + `"`}}, true
 }
 
 func opRepeatedToOptional(e *Editor, ws *Workspace) (*Edit, bool) {
@@ -761,7 +761,7 @@ func opRepeatedToOptional(e *Editor, ws *Workspace) (*Edit, bool) {
 	}
 	return &Edit{Op: "repeated-to-optional", Desc: fmt.Sprintf("%s.%s: repeated -> %q", s.msg.Full, s.fld.Name, s.fld.Label),
 		Rules: []string{"FIELD_SAME_CARDINALITY", "FIELD_WIRE_JSON_COMPATIBLE_CARDINALITY", "FIELD_WIRE_COMPATIBLE_CARDINALITY"},
-		File: s.file.Path, ElemID: s.fld.ID, Mention: []string{numStr(s.fld.Number), `"` + s.fld.Name + `"`}}, true
+		File:  s.file.Path, ElemID: s.fld.ID, Mention: []string{numStr(s.fld.Number), `"` + s.fld.Name + `"`}}, true
 }
 
 func opOptionalToRequired(e *Editor, ws *Workspace) (*Edit, bool) {
@@ -775,7 +775,7 @@ func opOptionalToRequired(e *Editor, ws *Workspace) (*Edit, bool) {
 	s.fld.Label = LabelRequired
 	return &Edit{Op: "optional-to-required", Desc: fmt.Sprintf("%s.%s: optional -> required", s.msg.Full, s.fld.Name),
 		Rules: []string{"FIELD_SAME_CARDINALITY", "FIELD_WIRE_JSON_COMPATIBLE_CARDINALITY", "FIELD_WIRE_COMPATIBLE_CARDINALITY", "MESSAGE_SAME_REQUIRED_FIELDS"},
-		File: s.file.Path, ElemID: s.fld.ID, Mention: []string{numStr(s.fld.Number), `"` + s.fld.Name + `"`},
+		File:  s.file.Path, ElemID: s.fld.ID, Mention: []string{numStr(s.fld.Number), `"` + s.fld.Name + `"`},
 		PerRuleMention: map[string][]string{"MESSAGE_SAME_REQUIRED_FIELDS": {numStr(s.fld.Number), s.fld.Name, s.msg.Msg.Name}},
 		PerRuleElem:    map[string]string{"MESSAGE_SAME_REQUIRED_FIELDS": s.msg.Msg.ID}}, true
 }
@@ -789,7 +789,7 @@ func opRequiredToOptional(e *Editor, ws *Workspace) (*Edit, bool) {
 	s.fld.Label = LabelOptional
 	return &Edit{Op: "required-to-optional", Desc: fmt.Sprintf("%s.%s: required -> optional", s.msg.Full, s.fld.Name),
 		Rules: []string{"FIELD_SAME_CARDINALITY", "FIELD_WIRE_JSON_COMPATIBLE_CARDINALITY", "FIELD_WIRE_COMPATIBLE_CARDINALITY", "MESSAGE_SAME_REQUIRED_FIELDS"},
-		File: s.file.Path, ElemID: s.fld.ID, Mention: []string{numStr(s.fld.Number), `"` + s.fld.Name + `"`},
+		File:  s.file.Path, ElemID: s.fld.ID, Mention: []string{numStr(s.fld.Number), `"` + s.fld.Name + `"`},
 		PerRuleMention: map[string][]string{"MESSAGE_SAME_REQUIRED_FIELDS": {numStr(s.fld.Number), s.fld.Name, s.msg.Msg.Name}},
 		PerRuleElem:    map[string]string{"MESSAGE_SAME_REQUIRED_FIELDS": s.msg.Msg.ID}}, true
 }
@@ -1378,7 +1378,9 @@ func opChangeCType(e *Editor, ws *Workspace) (*Edit, bool) {
 }
 
 func opNoStandardDescriptorAccessor(e *Editor, ws *Workspace) (*Edit, bool) {
-	sites := msgSites(ws, func(m MsgRef) bool { return !isGroupBody(m) && !hasOpt(m.Msg.Options, "no_standard_descriptor_accessor") })
+	sites := msgSites(ws, func(m MsgRef) bool {
+		return !isGroupBody(m) && !hasOpt(m.Msg.Options, "no_standard_descriptor_accessor")
+	})
 	if len(sites) == 0 {
 		return nil, false
 	}
@@ -1426,7 +1428,9 @@ func opEnumClosedOpen(e *Editor, ws *Workspace) (*Edit, bool) {
 
 func opJSONFormat(e *Editor, ws *Workspace) (*Edit, bool) {
 	if e.pick("msgorenum", 2) == 0 {
-		sites := msgSites(ws, func(m MsgRef) bool { return m.File.Syntax == Editions && !isGroupBody(m) && !hasOpt(m.Msg.Options, "features.json_format") })
+		sites := msgSites(ws, func(m MsgRef) bool {
+			return m.File.Syntax == Editions && !isGroupBody(m) && !hasOpt(m.Msg.Options, "features.json_format")
+		})
 		if len(sites) == 0 {
 			return nil, false
 		}
@@ -1435,7 +1439,9 @@ func opJSONFormat(e *Editor, ws *Workspace) (*Edit, bool) {
 		return &Edit{Op: "message-json-format", Desc: s.Full + ": features.json_format = LEGACY_BEST_EFFORT", Rules: []string{"MESSAGE_SAME_JSON_FORMAT"},
 			File: s.File.Path, ElemID: s.Msg.ID, Mention: []string{s.Msg.Name}}, true
 	}
-	sites := enumSites(ws, func(er EnumRef) bool { return er.File.Syntax == Editions && !hasOpt(er.Enum.Options, "features.json_format") })
+	sites := enumSites(ws, func(er EnumRef) bool {
+		return er.File.Syntax == Editions && !hasOpt(er.Enum.Options, "features.json_format")
+	})
 	if len(sites) == 0 {
 		return nil, false
 	}
